@@ -55,6 +55,12 @@ func getSubnetsHkdf(sc genericSubnetConfig, seed []byte, weighted bool) ([]*phan
 			choices = append(choices, cjSubnet)
 		}
 
+		// crypto/rand.Int panics for a non-positive bound: a configuration in which no subnet set
+		// has a non-zero weight offers nothing to choose from.
+		if totWeight <= 0 {
+			return nil, fmt.Errorf("%w: total subnet weight is zero", ErrMissingAddrs)
+		}
+
 		// Sort choices ascending
 		sort.Slice(choices, func(i, j int) bool {
 			return choices[i].GetWeight() < choices[j].GetWeight()
